@@ -46,22 +46,35 @@ def splitNul (n : Nat) (p : Bytes) : Option (List Bytes) :=
 inductive Call
   | set (v : Var) (x : Value)
   | push (v : Var) (x : Bytes)
+  | nop                      -- the harness ignores a call whose variable does not fit its kind
 
+/-- decode one call exactly as the harness does (`none` = BAD-CALL) -/
 def decodeCall (c : Bytes) : Option Call :=
   match c with
-  | kind :: var :: payload => do
-    let v ← varOfIndex var.toNat
+  | kind :: var :: payload =>
+    let v? := varOfIndex var.toNat
+    let fits (k : VKind) : Option Var := match v? with | some v => if v.kind == k then some v else none | none => none
     match kind.toNat with
-    | 0 => if v.kind == .str then some (.set v (.s payload)) else none
+    | 0 =>
+      if (utf8 payload).2 != .complete then none
+      else some (match fits .str with | some v => .set v (.s payload) | none => .nop)
     | 1 =>
-      if v.kind == .int then (parseI64? (bytesToAsciiStr payload)).map fun n => .set v (.i n) else none
+      if (utf8 payload).2 != .complete then none
+      else match parseI64? (bytesToAsciiStr payload) with
+        | none => none
+        | some n => some (match fits .int with | some v => .set v (.i n) | none => .nop)
     | 2 =>
-      if v.kind == .arr then
-        match payload with
-        | n :: rest => (splitNul n.toNat rest).map fun l => .set v (.a l)
-        | [] => none
-      else none
-    | 3 => if v.kind == .arr then some (.push v payload) else none
+      match payload with
+      | n :: rest =>
+        match splitNul n.toNat rest with
+        | none => none
+        | some l =>
+          if l.any (fun x => (utf8 x).2 != .complete) then none
+          else some (match fits .arr with | some v => .set v (.a l) | none => .nop)
+      | [] => none
+    | 3 =>
+      if (utf8 payload).2 != .complete then none
+      else some (match fits .arr with | some v => .push v payload | none => .nop)
     | _ => none
   | _ => none
 
@@ -70,6 +83,7 @@ def applyCalls (s : Summary) : List Call → Option Summary
   | [] => some s
   | .set v x :: cs => applyCalls (s.set v x) cs
   | .push v x :: cs => (s.push v x).bind (applyCalls · cs)
+  | .nop :: cs => applyCalls s cs
 
 /-- abstract semantics of a call history (C07's "current values"): an association
     list, last set wins, pushes append -/
@@ -77,11 +91,13 @@ def finalValues (calls : List Call) : Var → Option Value := fun v =>
   let mine := calls.filter fun
     | .set w _ => w == v
     | .push w _ => w == v
+    | .nop => false
   mine.foldl (fun acc c =>
     match c, acc with
     | .set _ x, _ => some x
     | .push _ x, some (.a l) => some (.a (l ++ [x]))
-    | .push _ x, _ => some (.a [x])) none
+    | .push _ x, _ => some (.a [x])
+    | .nop, acc => acc) none
 
 def streamRun (chunks : List Bytes) : Stream × List String :=
   chunks.foldl (fun (acc : Stream × List String) c =>
@@ -122,7 +138,7 @@ def oracleC07 (op : String) (args : List Bytes) (impl : String) : String × Stri
     | some calls =>
       let fin := finalValues calls
       let text := S.print fin
-      let vars := (calls.map fun | .set v _ => v | .push v _ => v)
+      let vars := (calls.filterMap fun | .set v _ => some v | .push v _ => some v | .nop => none)
       let optional := vars.any fun v => !S.required.contains v
       let multi := S.table.any fun (v, _) => match fin v with | some (.a l) => l.length ≥ 2 | _ => false
       let sortedByIdx := (vars.zip (vars.drop 1)).all fun (a, c) => S.varIndex a ≤ S.varIndex c
@@ -247,6 +263,7 @@ def handler (prop : String) : Handler := fun op args impl =>
       | "C07" => oracleC07 op args impl
       | "C08" => oracleC08 op args impl
       | "C09" => oracleC09 op args impl
+      | "C17" => oracleC17 args impl
       | _ => ("na", "")
     some (m, o, t)
 
